@@ -377,7 +377,7 @@ pub fn gen(out: &mut Out, thorough: bool, focus: &str) {
         }
     }
     // generated values x option records
-    let n = if thorough { 60000 } else { 8000 };
+    let n = if thorough { 400000 } else { 8000 };
     for i in 0..n {
         let v = gen_value(&mut out.rng, 0, if i % 7 == 0 { 5 } else { 3 });
         let sv = show_value(&v);
